@@ -67,6 +67,7 @@ def check(case):
     nguard_cells = ny_file - t["ny"]
     conn = side["connections"]
     opposite = {"inner": "outer", "outer": "inner", "lower": "upper", "upper": "lower"}
+    T_psi = gridcheck.refine_tolerance(case)
     for rid, c in conn.items():
         for face, other in c.items():
             if other is None:
@@ -97,11 +98,20 @@ def check(case):
                     numpy.abs(fa["Rxy"]["xlow"][-1, :] - fb["Rxy"]["xlow"][0, :]).max(),
                     numpy.abs(fa["Zxy"]["xlow"][-1, :] - fb["Zxy"]["xlow"][0, :]).max(),
                 )
-                margins["shared-edge-x/" + cls] = max(margins.get("shared-edge-x/" + cls, 0.0), float(d) / XTOL)
-                if d > XTOL:
+                # each region refines its own copy of the shared contour to refine_atol in psi: the two
+                # copies may differ by that tolerance over the local |grad psi| (estimated from the
+                # radial face spacing of the two regions)
+                dpsi = min(abs(float(a["psi_vals"][-1] - a["psi_vals"][-3])), abs(float(b["psi_vals"][2] - b["psi_vals"][0])))
+                dr = max(
+                    float(numpy.hypot(fa["Rxy"]["xlow"][-1, :] - fa["Rxy"]["xlow"][-2, :], fa["Zxy"]["xlow"][-1, :] - fa["Zxy"]["xlow"][-2, :]).max()),
+                    float(numpy.hypot(fb["Rxy"]["xlow"][1, :] - fb["Rxy"]["xlow"][0, :], fb["Zxy"]["xlow"][1, :] - fb["Zxy"]["xlow"][0, :]).max()),
+                )
+                xtol = max(XTOL, 2.0 * T_psi * dr / max(dpsi, 1e-300))
+                margins["shared-edge-x/" + cls] = max(margins.get("shared-edge-x/" + cls, 0.0), float(d) / xtol)
+                if d > xtol:
                     fail(
                         "C08/shared-edge-x/" + cls,
-                        {"region": a["name"], "other": b["name"], "dist": float(d), "tol": XTOL},
+                        {"region": a["name"], "other": b["name"], "dist": float(d), "tol": xtol},
                         {"class": cls},
                     )
 
